@@ -17,7 +17,7 @@ func init() {
 		Doc: "shortcut elimination keeps the language: all transitions and terminal-ness of the target are inherited; false only after a full scan found no shortcut", Run: fsm1})
 	register(&Rule{ID: "FSM-2", Props: []string{"C01", "C03"}, Floor: 3,
 		Doc: "graph walks check-then-mark a visited set before recursing; a fixpoint loop has a measure (each true step removes a transition and, if it appends, marks a new key in a set)", Run: fsm2})
-	register(&Rule{ID: "FSM-3", Props: []string{"C01", "C11"}, Floor: 5,
+	register(&Rule{ID: "FSM-3", Props: []string{"C01", "C11", "C12"}, Floor: 5,
 		Doc: "exhaustive backtracking: every transition is offered to Match, every match is recorded and tried, false only after exhaustion", Run: fsm3})
 	register(&Rule{ID: "FSM-4", Props: []string{"C02", "C09", "C15", "C12"}, Floor: 5,
 		Doc: "context isolation: fresh context per transition with the options-ended flag copied, the same context goes to the recursive call, Merge only on its success, Merge appends in order", Run: fsm4})
